@@ -111,8 +111,13 @@ pub fn run(ctx: &Ctx) -> Option<Report> {
         "C05" => {
             rep.merge(run_cases(ctx, 4, 4, "", |i, _seed, r| huge_frames(i, r)));
             rep.merge(run_cases(ctx, 5, 2, "", |i, _seed, r| many_exchanges_u32(i, r, "C05")));
+            rep.merge(run_cases(ctx, 8, 2, "", |i, _seed, r| repeated_property_frames(i, r)));
         }
-        "C12" => rep.merge(run_cases(ctx, 5, 2, "", |i, _seed, r| many_exchanges_u32(i, r, "C12"))),
+        "C12" => {
+            rep.merge(run_cases(ctx, 5, 2, "", |i, _seed, r| many_exchanges_u32(i, r, "C12")));
+            rep.merge(run_cases(ctx, 6, 8, "", |i, _seed, r| window_fill(i, r)));
+        }
+        "C07" => rep.merge(run_cases(ctx, 7, 2, "", |i, _seed, r| mid_size_alias_publish(i, r))),
         _ => {}
     }
     Some(rep)
@@ -311,6 +316,68 @@ fn huge_frames(i: u64, rep: &mut Report) {
     }
 }
 
+/// C05 (directed, many at once): a frame that repeats one property 256 / 257 / 1000 times, in every property-carrying
+/// location, fed to a connection that can receive that packet kind: no panic, consumed exactly, delivered or reported
+fn repeated_property_frames(i: u64, rep: &mut Report) {
+    use crate::apkt::*;
+    use crate::checks::c18::{carrier, legal_value, with_auth_method};
+    use crate::conn::*;
+    use crate::refcodec as rc;
+    let idw = if i == 0 { 2 } else { 4 };
+    let ver = Ver::V5;
+    for (id, _, name) in PROP_TABLE.iter() {
+        for loc in ALL_LOCS {
+            if !prop_allowed(*id, loc) {
+                continue;
+            }
+            for count in [256usize, 257, 1000] {
+                let p = Prop { id: *id, val: legal_value(*id) };
+                let list: Vec<Prop> = (0..count).map(|_| p.clone()).collect();
+                let (props, auth_has_method) = if *id == 21 { (list, false) } else { with_auth_method(loc, list) };
+                let a = carrier(loc, props, auth_has_method, 0);
+                let frame = rc::encode(&a, idw);
+                // who receives this kind, and in which state
+                let to_client = matches!(loc, Loc::Connack | Loc::Suback | Loc::Unsuback);
+                let role = if to_client { Role::Client } else { Role::Server };
+                let mut c = new_conn(role, idw, LVer::V5);
+                let connect = Pkt::Connect { ver, clean: true, keep_alive: 0, client_id: b"c".to_vec(), will: None, user: None, pass: None, props: vec![] };
+                let connack = Pkt::Connack { ver, sp: false, code: 0, props: vec![] };
+                match loc {
+                    Loc::Connect | Loc::Will => {}
+                    Loc::Connack => {
+                        let _ = c.send(&connect, Via::Dynamic);
+                    }
+                    _ if to_client => {
+                        let _ = c.send(&connect, Via::Dynamic);
+                        let _ = c.recv(&rc::encode(&connack, idw));
+                    }
+                    _ => {
+                        let _ = c.recv(&rc::encode(&connect, idw));
+                        let _ = c.send(&connack, Via::Dynamic);
+                    }
+                }
+                rep.evaluations += 1;
+                rep.api_calls += 1;
+                rep.hit("X11-property-repeated-hundreds-of-times");
+                rep.distinct_case(format!("repeated {} {} {:?} {}", id, count, loc, idw).as_bytes());
+                let mut fail = |rep: &mut Report, sig: String, what: String| {
+                    rep.violate(Violation { property: "C05".into(), rule: "X11-property-repeated-hundreds-of-times".into(), signature: format!("C05.X11-property-repeated-hundreds-of-times@{}", sig), what, witness: json!({"property": name, "location": format!("{:?}", loc), "copies": count, "id_width": idw}), case: (8, i) });
+                };
+                match c.recv(&frame) {
+                    Err(pn) => fail(rep, format!("panic;loc={:?}", loc), format!("recv of a {:?} packet carrying {} x{} panicked: {}", loc, name, count, pn.message)),
+                    Ok((evs, n)) => {
+                        if n != frame.len() {
+                            fail(rep, format!("consumed;loc={:?}", loc), format!("recv of a {:?} packet carrying {} x{} consumed {} of {} bytes", loc, name, count, n, frame.len()));
+                        } else if !evs.iter().any(|e| e.is_error()) && !evs.iter().any(|e| matches!(e, Ev::Recv { .. })) {
+                            fail(rep, format!("silent;loc={:?}", loc), format!("recv of a {:?} packet carrying {} x{} neither delivered nor reported: {}", loc, name, count, evs_short(&evs)));
+                        }
+                    }
+                }
+            }
+        }
+    }
+}
+
 /// C05 / C12 (directed, extreme values): a u32-id session with more stored exchanges than a u16 can count (65 536 + 3) is
 /// resumed under Receive Maximum 10: no vacancy, nothing more accepted; then the peer acknowledges every one of them - no
 /// panic, and the vacancy comes back only when fewer than 10 are left
@@ -408,6 +475,149 @@ fn many_exchanges_u32(i: u64, rep: &mut Report, prop: &str) {
         }
     }
     rep.api_calls += n as u64;
+}
+
+/// C12 (directed, many at once): a Receive Maximum window of M in {255, 256, 257, 300, 1000} is filled with fresh QoS>0
+/// PUBLISHes on ONE connection: the vacancy goes down by one per PUBLISH, the (M+1)-th is refused, every acknowledgement
+/// gives one slot back (QoS 1 and QoS 2 mixed, acknowledged in a scattered order)
+fn window_fill(i: u64, rep: &mut Report) {
+    use crate::apkt::*;
+    use crate::conn::*;
+    use crate::refcodec as rc;
+    let idw = if i % 2 == 0 { 2 } else { 4 };
+    let as_client = (i / 2) % 2 == 0;
+    let role = if (i / 4) % 2 == 0 { if as_client { Role::Client } else { Role::Server } } else { Role::Any };
+    let ver = Ver::V5;
+    let rule = "F5-window-of-hundreds-filled-and-drained";
+    for m in [255u16, 256, 257, 300, 1000] {
+        let mut c = new_conn(role, idw, LVer::V5);
+        let connect = Pkt::Connect { ver, clean: true, keep_alive: 0, client_id: b"c".to_vec(), will: None, user: None, pass: None, props: if as_client { vec![] } else { vec![p_u16(P_RM, m)] } };
+        let connack = Pkt::Connack { ver, sp: false, code: 0, props: if as_client { vec![p_u16(P_RM, m)] } else { vec![] } };
+        let ok = if as_client { c.send(&connect, Via::Dynamic).is_ok() && c.recv(&rc::encode(&connack, idw)).is_ok() } else { c.recv(&rc::encode(&connect, idw)).is_ok() && c.send(&connack, Via::Dynamic).is_ok() };
+        if !ok {
+            continue;
+        }
+        rep.evaluations += 1;
+        rep.hit(rule);
+        rep.distinct_case(format!("window {:?} {} {} {}", role, idw, as_client, m).as_bytes());
+        let mut fail = |rep: &mut Report, sig: &str, what: String| {
+            rep.violate(Violation { property: "C12".into(), rule: rule.into(), signature: format!("C12.{}@{}", rule, sig), what, witness: json!({"role": format!("{:?}", role), "id_width": idw, "receive_maximum": m}), case: (6, i) });
+        };
+        let mut ids: Vec<(u32, u8)> = Vec::new();
+        let mut bad = false;
+        for k in 0..m as u32 {
+            let Ok(Ok(id)) = c.acquire() else { break };
+            let qos = 1 + (k % 2) as u8;
+            let p = Pkt::Publish { ver, dup: false, qos, retain: false, topic: b"t".to_vec(), id: Some(id), props: vec![], payload: vec![] };
+            match c.send(&p, Via::Dynamic) {
+                Ok(SendOutcome::Events(e)) if !e.iter().any(|x| x.is_error()) => ids.push((id, qos)),
+                other => {
+                    fail(rep, "refused-below-limit", format!("PUBLISH #{} of a window of {} refused: {:?}", k + 1, m, other.map(|o| format!("{:?}", o)).map_err(|p| p.message)));
+                    bad = true;
+                    break;
+                }
+            }
+            let want = m - (k as u16 + 1);
+            match c.vacancy() {
+                Ok(Some(v)) if v == want => {}
+                other => {
+                    fail(rep, "vacancy-while-filling", format!("after {} unacknowledged QoS>0 PUBLISHes, Receive Maximum {}: vacancy {:?}, expected {}", k + 1, m, other.map_err(|p| p.message), want));
+                    bad = true;
+                    break;
+                }
+            }
+        }
+        rep.api_calls += 3 * m as u64;
+        if bad {
+            continue;
+        }
+        // one more must be refused
+        if let Ok(Ok(id)) = c.acquire() {
+            let p = Pkt::Publish { ver, dup: false, qos: 1, retain: false, topic: b"t".to_vec(), id: Some(id), props: vec![], payload: vec![] };
+            match c.send(&p, Via::Dynamic) {
+                Ok(SendOutcome::Events(e)) if e.iter().any(|x| matches!(x, Ev::Error(s) if s == "ReceiveMaximumExceeded")) && !e.iter().any(|x| matches!(x, Ev::Send { .. })) => {}
+                other => {
+                    fail(rep, "accepted-at-limit", format!("PUBLISH #{} with Receive Maximum {}: {:?}", m as u32 + 1, m, other.map(|o| format!("{:?}", o)).map_err(|p| p.message)));
+                    continue;
+                }
+            }
+        }
+        // drain in a scattered order
+        let n = ids.len();
+        let mut order: Vec<usize> = (0..n).collect();
+        for k in 0..n {
+            order.swap(k, (k * 7919 + 13) % n);
+        }
+        let mut left = n as u32;
+        for &k in &order {
+            let (id, qos) = ids[k];
+            let frames: Vec<Pkt> = if qos == 1 { vec![Pkt::Ack { ver, kind: AckKind::Puback, id, code: None, props: None }] } else { vec![Pkt::Ack { ver, kind: AckKind::Pubrec, id, code: Some(0x80), props: None }] };
+            for f in frames {
+                if let Err(pn) = c.recv(&rc::encode(&f, idw)) {
+                    fail(rep, "panic", pn.message);
+                    bad = true;
+                }
+            }
+            if bad {
+                break;
+            }
+            left -= 1;
+            let want = (m as u32 - left) as u16;
+            match c.vacancy() {
+                Ok(Some(v)) if v == want => {}
+                other => {
+                    fail(rep, "vacancy-while-draining", format!("{} exchanges left, Receive Maximum {}: vacancy {:?}, expected {}", left, m, other.map_err(|p| p.message), want));
+                    break;
+                }
+            }
+        }
+    }
+}
+
+/// C07 (directed, middle of a huge range): an alias-only QoS 2 PUBLISH of 17 MB / 100 MB whose alias is bound fits the
+/// largest Remaining Length with its resolved topic: it must be notified; and whatever happens, an id the application was
+/// never told about must not sit in the handled set (its retransmission after a resume would be swallowed)
+fn mid_size_alias_publish(i: u64, rep: &mut Report) {
+    use crate::apkt::*;
+    use crate::conn::*;
+    use crate::refcodec as rc;
+    let idw = 2;
+    let as_client = i % 2 == 0;
+    let role = if as_client { Role::Client } else { Role::Server };
+    let ver = Ver::V5;
+    let rule = "Q5-handled-implies-notified";
+    for rl in [17_000_000usize, 100_000_000] {
+        let mut c = new_conn(role, idw, LVer::V5);
+        let connect = Pkt::Connect { ver, clean: false, keep_alive: 0, client_id: b"c".to_vec(), will: None, user: None, pass: None, props: if as_client { vec![p_u32(P_SEI, 100), p_u16(P_TAM, 4)] } else { vec![p_u32(P_SEI, 100)] } };
+        let connack = Pkt::Connack { ver, sp: false, code: 0, props: if as_client { vec![] } else { vec![p_u16(P_TAM, 4)] } };
+        let ok = if as_client { c.send(&connect, Via::Dynamic).is_ok() && c.recv(&rc::encode(&connack, idw)).is_ok() } else { c.recv(&rc::encode(&connect, idw)).is_ok() && c.send(&connack, Via::Dynamic).is_ok() };
+        if !ok {
+            continue;
+        }
+        let _ = c.recv(&rc::encode(&Pkt::Publish { ver, dup: false, qos: 0, retain: false, topic: b"topic/long/abc".to_vec(), id: None, props: vec![p_u16(P_TA, 1)], payload: vec![] }, idw));
+        let mut f: Vec<u8> = vec![0x34];
+        rc::vbi_encode(rl as u32, &mut f);
+        let head = f.len();
+        f.extend_from_slice(&[0, 0, 0, 9, 3, 0x23, 0, 1]);
+        f.resize(head + rl, b'p');
+        rep.evaluations += 1;
+        rep.api_calls += 1;
+        rep.hit(rule);
+        rep.distinct_case(format!("mid-size {:?} {}", role, rl).as_bytes());
+        let mut fail = |rep: &mut Report, sig: &str, what: String| {
+            rep.violate(Violation { property: "C07".into(), rule: rule.into(), signature: format!("C07.{}@{}", rule, sig), what, witness: json!({"role": format!("{:?}", role), "remaining_length": rl}), case: (7, i) });
+        };
+        match c.recv(&f) {
+            Err(pn) => fail(rep, "panic", format!("recv of a {}-byte alias-only QoS 2 PUBLISH panicked: {}", f.len(), pn.message)),
+            Ok((evs, _)) => {
+                let delivered = evs.iter().any(|e| matches!(e, Ev::Recv { pkt: Pkt::Publish { .. }, .. }));
+                let handled = c.handled().unwrap_or_default();
+                if !delivered {
+                    fail(rep, &format!("not-delivered;in_handled_set={}", handled.contains(&9)), format!("a well-formed {}-byte alias-only QoS 2 PUBLISH (id 9, alias bound) was not delivered: {}; handled set afterwards {:?}", f.len(), evs_short(&evs), handled));
+                }
+            }
+        }
+    }
 }
 
 /// C14: limits exactly at size-1 / size / size+1 of the very packet, for every send path
